@@ -67,6 +67,12 @@ def _agent_loop(rf, wf):
             elif op == "dumps":
                 o = handles[rq["h"]]
                 try:
+                    ck = rq.get("container")
+                    if ck:
+                        # the message is a container that holds the expression (as a key,
+                        # as an element, more than once)
+                        o = {"dict": lambda: {o: "v"}, "set": lambda: {o},
+                             "tuple": lambda: (o, o), "list": lambda: [o, [o, "x"]]}[ck]()
                     b = pickle.dumps(o, protocol=rq["proto"])
                     reply({"ok": True, "raised": None,
                            "bytes": base64.b64encode(b).decode("ascii")})
@@ -78,6 +84,20 @@ def _agent_loop(rf, wf):
                 stage = "loads"
                 try:
                     o = pickle.loads(base64.b64decode(rq["bytes"]))
+                    ck = rq.get("container")
+                    if ck:
+                        stage = "container"
+                        c = o
+                        if ck in ("dict", "set"):
+                            # the container was rebuilt here, with this process's hashes
+                            res["container_ok"] = bool((twin in c) and len(c) == 1)
+                            o = next(iter(c))
+                        elif ck == "tuple":
+                            res["container_ok"] = bool(len(c) == 2 and c[0] == twin and c[1] == twin)
+                            o = c[0]
+                        else:
+                            res["container_ok"] = bool(c[0] == twin and c[1][0] == twin)
+                            o = c[0]
                     handles[rq["h"]] = o
                     stage = "eq"
                     res["eq"] = bool(o == twin)
